@@ -600,6 +600,83 @@ def r10_13(prog):
     return r
 
 
+_FMT_SPEC = re.compile(r"%(?:\d+\$)?[-+ #0']*(\*|\d+)?(?:\.(\*|\d+))?(hh|h|ll|l|j|z|t|L|q)?([diouxXeEfgGaAcspn%])")
+
+
+def r10_14(prog):
+    """Diagnostics and output calls get the arguments their format asks for.  The compiler's own printf-like functions
+    (the error/debug handlers behind FATAL/WARNING/DEBUG, OUT, safe_printf, abuf_printf, ...) carry no format attribute,
+    so the C compiler does not check them.  For every call of a variadic function whose last fixed argument is a string
+    literal with conversion specifications (after macro expansion, reachable blocks only): the number of variadic
+    arguments equals the number the format consumes, a `%s` gets a character pointer, an integer conversion an
+    integer, a floating conversion a double.  A `%s` fed an int, or one argument too few, crashes asn1c on the very path
+    that was to print a diagnostic."""
+    r = Rule("R10.14", "every printf-like call of the compiler passes the number and kinds of arguments its format consumes", floor=1200)
+    for f in sorted(prog.funcs.values(), key=lambda f: f.key):
+        reach = f.reachable_from([f.entry]) if f.entry is not None else set()
+        seen = set()
+        n = 0
+        for b, i, e in f.calls():
+            if b.id not in reach or not e.get("variadic"):
+                continue
+            pt = e.get("param_types") or []
+            fi = len(pt) - 1
+            args = e.get("args", [])
+            if fi < 0 or fi >= len(args):
+                continue
+            t = strip_casts(args[fi].get("tree"))
+            if not (isinstance(t, list) and t and t[0] == "str") or t[1] == "<wide>":
+                continue
+            cal = e.get("callee") or ("->" + str(e.get("slot")))
+            if cal in ("scanf", "sscanf", "fscanf"):
+                continue
+            fmt = t[1]
+            if (e.get("line"), cal, fmt) in seen or (e.get("line"), "bad") in seen:
+                continue          # the logging macros expand one call per run-time configuration: one report per source line
+            seen.add((e.get("line"), cal, fmt))
+            kinds = []
+            for m in _FMT_SPEC.finditer(fmt):
+                if m.group(4) == "%":
+                    continue
+                if m.group(1) == "*":
+                    kinds.append("d")
+                if m.group(2) == "*":
+                    kinds.append("d")
+                kinds.append(m.group(4))
+            va = args[fi + 1:]
+            n += 1
+            key = "%s@%s#%d" % (cal, e.get("line"), n)
+            if len(va) != len(kinds):
+                seen.add((e.get("line"), "bad"))
+                r.bad(f, key, "the format `%s` consumes %d argument(s) and the call passes %d: %s" % (
+                    fmt[:60], len(kinds), len(va), "the last conversions read whatever follows on the stack" if len(va) < len(kinds)
+                    else "every conversion after the surplus one gets its neighbour's argument"), e["line"])
+                continue
+            wrong = None
+            for cv, a in zip(kinds, va):
+                ty = a.get("type", "")
+                ptr = "*" in ty or "[" in ty
+                if cv == "s":
+                    ok = ptr and ("char" in ty or "uint8_t" in ty)
+                elif cv in "diouxXc":
+                    ok = not ptr and "double" not in ty and "float" not in ty
+                elif cv in "eEfgGaA":
+                    ok = "double" in ty or "float" in ty
+                elif cv == "p":
+                    ok = ptr
+                else:
+                    ok = True
+                if not ok:
+                    wrong = (cv, ty, tree_text(a.get("tree")))
+                    break
+            if wrong:
+                seen.add((e.get("line"), "bad"))
+                r.bad(f, key, "`%%%s` in `%s` is given `%s` of type %s" % (wrong[0], fmt[:60], wrong[2][:40], wrong[1]), e["line"])
+            else:
+                r.ok(f, key, "%d conversion(s), argument kinds agree" % len(kinds), e["line"], nontrivial=bool(kinds))
+    return r
+
+
 def run(ctx):
     prog = ctx.prog("K")
     tab = load_tables("c10")
@@ -619,6 +696,7 @@ def run(ctx):
     rules.append(r10_10(prog, tab))
     rules.append(r10_12(prog))
     rules.append(r10_13(prog))
+    rules.append(r10_14(prog))
     # R10.9: asn1c terminates: exact rule over every loop of the compiler
     from . import termination
     rules.append(termination.rule_for(prog, "R10.9", "the compiler (parser actions, fixer, printer, code generator)", set(prog.funcs.keys()), 250))
